@@ -8,7 +8,7 @@ export CARGO_NET_OFFLINE=true CARGO_TARGET_DIR=$wt/target
 git -C /repo worktree add -q --detach "$wt" HEAD || exit 2
 res="$dir/confirm.txt"; : > "$res"
 cd "$wt"
-cp "$dir/demo.rs" "$crate/tests/demo.rs"
+mkdir -p "$crate/tests"; cp "$dir/demo.rs" "$crate/tests/demo.rs"
 feat="--features json-core,derive,postcard"; [ "$crate" = miniconf ] || feat=""
 ( cd $crate && cargo test --offline $feat --test demo 2>&1 | grep -E "^test result|panicked|error" | head -5 ) > /tmp/confirm_$name.without 2>&1
 echo "demo WITHOUT patch: $(grep -c 'test result: ok' /tmp/confirm_$name.without) ok-lines / $(grep -c 'FAILED' /tmp/confirm_$name.without) failed-lines" >> "$res"
